@@ -3,9 +3,23 @@
 import glob, json, os
 ROOT = os.path.dirname(os.path.dirname(os.path.abspath(__file__)))
 rows = []
+harmless_rows = []
 for f in sorted(glob.glob(os.path.join(ROOT, 'seeded', '*', 'meta.json'))):
     m = json.load(open(f))
     sid = os.path.basename(os.path.dirname(f))
+    if m.get('harmless'):
+        silent0 = all(v.get('exit') == 0 and not v.get('violation_line') for v in m['checks_run'].values())
+        notes = '; '.join('%s: %s' % (k, v) for c in m['checks_run'].values() for k, v in (c.get('regen_notes') or {}).items())
+        if silent0:
+            how = 'silent as built'
+        elif m.get('silent') and m.get('reruns'):
+            how = 'FALSE ALARM at first (%s); silent after the machinery was corrected: %s' % (
+                next((v.get('violation_line') or 'exit %s' % v.get('exit') for v in m['checks_run'].values() if v.get('violation_line') or v.get('exit')), ''), m['reruns'][-1]['note'])
+        else:
+            how = 'ALARM (false alarm, open)'
+        harmless_rows.append('| %s | %s (%s) | %s%s |' % (sid, (m.get('summary') or '').replace('\n', ' ').replace('|', '/')[:300], m.get('kind'), how,
+                                                       (' - ' + notes[:200]) if notes else ''))
+        continue
     first = all(v.get('violation_line') for v in m['checks_run'].values())
     line = next((v['violation_line'] for v in m['checks_run'].values() if v.get('violation_line')), None)
     how = 'caught as built' if first else ('caught after strengthening: ' + m['reruns'][-1]['note'] if m.get('caught') and m.get('reruns') else 'MISSED')
@@ -16,6 +30,9 @@ for f in sorted(glob.glob(os.path.join(ROOT, 'seeded', '*', 'meta.json'))):
     need = (m.get('needs_to_manifest') or '').replace('\n', ' ').replace('|', '/')
     rows.append('| %s | %s | %s | %s (%s) |' % (sid, summ[:260], need[:200], how, concrete))
 table = '| id | change | needs, to manifest | outcome |\n|---|---|---|---|\n' + '\n'.join(rows)
+if harmless_rows:
+    table += ('\n\nProperty-preserving rewrites (written by sub-agents that saw only the property text; each confirmed by its own equivalence '
+              'script and the 71 baseline tests): the check must stay silent.\n\n| id | rewrite | outcome |\n|---|---|---|\n' + '\n'.join(harmless_rows))
 import sys
 if '--update-design' in sys.argv:
     dp = os.path.join(ROOT, 'DESIGN.md')
